@@ -112,6 +112,32 @@ pub struct StunDecoded {
     /// Refresh responses). Honored per RFC 5766 §2.2 — the server may grant a
     /// lifetime shorter than the one requested by the client.
     pub lifetime: Option<u32>,
+    /// Value of the USERNAME attribute (0x0006), if present and valid UTF-8.
+    pub username: Option<String>,
+    /// Offset of the first MESSAGE-INTEGRITY attribute (0x0008) within the raw
+    /// message and its 20-byte HMAC-SHA1 value, if present.
+    pub message_integrity: Option<(usize, [u8; 20])>,
+}
+
+impl StunDecoded {
+    /// RFC 5389 §15.4: true iff the message carries a MESSAGE-INTEGRITY attribute
+    /// whose value is the HMAC-SHA1 under `key` of `raw` up to that attribute, with
+    /// the header length adjusted to end right after it. `raw` must be the bytes
+    /// this message was decoded from.
+    pub fn verify_integrity(&self, raw: &[u8], key: &[u8]) -> bool {
+        let Some((offset, tag)) = self.message_integrity else {
+            return false;
+        };
+        if offset < 20 || offset + 24 > raw.len() {
+            return false;
+        }
+        let mut covered = raw[..offset].to_vec();
+        write_length_field(&mut covered, offset - 20 + 24);
+        let mut mac =
+            <HmacSha1 as hmac::digest::KeyInit>::new_from_slice(key).expect("HMAC key init");
+        mac.update(&covered);
+        mac.verify_slice(&tag).is_ok()
+    }
 }
 
 fn encode_stun_message(
@@ -328,6 +354,8 @@ fn decode_stun_message(bytes: &[u8]) -> Result<StunDecoded> {
     let mut data = None;
     let mut use_candidate = false;
     let mut lifetime = None;
+    let mut username = None;
+    let mut message_integrity = None;
     while offset + 4 <= bytes.len() {
         let typ = u16::from_be_bytes([bytes[offset], bytes[offset + 1]]);
         let len = u16::from_be_bytes([bytes[offset + 2], bytes[offset + 3]]) as usize;
@@ -380,6 +408,18 @@ fn decode_stun_message(bytes: &[u8]) -> Result<StunDecoded> {
             0x0025 => {
                 use_candidate = true;
             }
+            0x0006 => {
+                if let Ok(text) = std::str::from_utf8(value) {
+                    username = Some(text.to_string());
+                }
+            }
+            0x0008 => {
+                if message_integrity.is_none() && value.len() == 20 {
+                    let mut tag = [0u8; 20];
+                    tag.copy_from_slice(value);
+                    message_integrity = Some((offset - 4, tag));
+                }
+            }
             _ => {}
         }
         offset += len;
@@ -398,6 +438,8 @@ fn decode_stun_message(bytes: &[u8]) -> Result<StunDecoded> {
         data,
         use_candidate,
         lifetime,
+        username,
+        message_integrity,
     })
 }
 
